@@ -338,6 +338,50 @@ def run(F, S, R, tier):
             R.ok("affine/median-no-overflow", "the two middle samples are added in a wider type (or not at all)", [m.where()])
     R.guard("affine/median-no-overflow", median)
 
+    def uncle_commitment():
+        """F15 (fixed 9cf4300): a block hash commits to an uncle through the uncle's header hash only, the uncle header commits to the uncle's
+        proposals. A twin of an honest block with other uncle proposals has the honest block's hash; it must be dropped where it enters
+        (before its hash is given any status), i.e. both entry points compare uncle.proposals_hash() with uncle.calc_proposals_hash()."""
+        def has_commitment_cmp(bodies):
+            for x in bodies:
+                for c in x.calls:
+                    if c.callee in K.CMP_CALLS or re.search(r"PartialEq::(eq|ne)$", c.callee):
+                        sa, sb = x.operand_sources(c.args[0]), x.operand_sources(c.args[1])
+                        if (K.src_match(sa, [r"call:.*::proposals_hash$"]) and K.src_match(sb, [r"call:.*calc_proposals_hash$"])) or \
+                           (K.src_match(sb, [r"call:.*::proposals_hash$"]) and K.src_match(sa, [r"call:.*calc_proposals_hash$"])):
+                            return c
+            return None
+        for fn in ("execute",):      # blocking_execute is cfg(test)
+            b = F.one("ckb_sync", r"synchronizer::block_process::BlockProcess::<'a>::%s$" % fn)
+            R.fn(b)
+            nbr = b.calls_to(r"::new_block_received$")
+            guards = []
+            for c in b.calls:
+                for cb in S.callee_bodies(c):
+                    if "ckb_sync" in cb.path and has_commitment_cmp(K.with_nested(cb)):
+                        guards.append(c)
+            inl = has_commitment_cmp(K.with_nested(b))
+            if inl is not None:
+                guards.append(inl)
+            R.sites += len(nbr) + len(guards)
+            key = "order/uncle-commitment/BlockProcess::%s" % fn
+            if not nbr:
+                R.bad(key + "/anchor-lost", "new_block_received not found in BlockProcess::%s" % fn, [b.where()])
+            elif guards and all(any(g.body is b and b.dominates(g.bb, n.bb) for g in guards) for n in nbr):
+                R.ok(key, "uncle proposals are checked against the uncle header before the block's hash gets a status", [guards[0].where()])
+            else:
+                R.bad(key, "BlockProcess::%s hands a block to new_block_received without checking that every uncle's proposals match its header: a twin with the honest block's hash "
+                      "fails later and the honest block is marked BLOCK_INVALID (refused until restart, honest peers banned)" % fn, [nbr[0].where()])
+        bu = F.one("ckb_sync", r"BlockUnclesVerifier::verify$")
+        R.fn(bu)
+        g = has_commitment_cmp(K.with_nested(bu))
+        R.sites += 1
+        if g is not None:
+            R.ok("order/uncle-commitment/BlockUnclesVerifier", "uncles of a BlockTransactions reply are checked against their own header's proposals hash", [g.where()])
+        else:
+            R.bad("order/uncle-commitment/BlockUnclesVerifier", "BlockUnclesVerifier binds received uncles by header hash only: an uncle with other proposals rebuilds an invalid block with a valid block's hash", [bu.where()])
+    R.guard("order/uncle-commitment", uncle_commitment)
+
 
 def _mentions(rv, local):
     k = rv.get("k")
